@@ -17,3 +17,11 @@ open CalmVerif.Props.C01
 #check @dotaccessor_has_no_separator
 #print axioms kf01_witness
 #check @kf01_witness
+#print axioms token_classes_consistent
+#check @token_classes_consistent
+#print axioms first_last_closed_pretty
+#check @first_last_closed_pretty
+#print axioms pretty_stream_typed
+#check @pretty_stream_typed
+#print axioms direct_adjacent_safe_pretty_partial
+#check @direct_adjacent_safe_pretty_partial
